@@ -235,6 +235,9 @@ Definition solve_compare (d : docq) (l : expr) (op : boolsym) (r : expr) : out r
   | EField lf, BEqual, ENull =>
       do x <- d lf;
       Ok (match x with None => M | Some VNull => T | Some _ => F end)
+  | ECast lf MStr, BEqual, ENull =>                      (* fix D27 *)
+      do x <- d lf;
+      Ok (match x with None => M | Some _ => F end)
   | _, _, _ =>
       do a <- operand_of d l;
       match a with
